@@ -55,7 +55,8 @@ Record rules := mkrules {
   r_ctp : list ctp_cond;
   r_dispatch_retry : list retry_class;
   r_dwc_retry : list retry_class;
-  r_attr_nullcheck : bool }.   (* Attribute_Access::do_call passes the object pointer through throw_if_null *)
+  r_attr_nullcheck : bool;     (* Attribute_Access::do_call passes the object pointer through throw_if_null *)
+  r_dwc_only_converted : bool }.   (* dispatch_with_conversions calls the chosen overload only if it converted an argument *)
 
 (* ------------------------------------------------------------------------------------------ *)
 (** * Types, boxes, received values *)
@@ -613,11 +614,18 @@ Fixpoint new_plist (E : env) (ps : list param) (args : list box) : option (list 
   | _, _ => Some []
   end.
 
+Fixpoint any_needs_arith (ps : list param) (args : list box) : bool :=
+  match ps, args with
+  | p :: ps', a :: args' => needs_arith (p_ti p) a || any_needs_arith ps' args'
+  | _, _ => false
+  end.
+
 Definition dispatch_with_conversions (R : rules) (E : env) (ofs : list (nat * func)) (args : list box) (tr : list event) : outcome :=
   match pick_conv R (e_convs E) ofs args PNone' with
   | PNone' | PAmbiguous => mkout tr (Some EDispatch)
   | PCrash => mkout tr (Some ECrash)
   | POne f =>
+      if r_dwc_only_converted R && negb (any_needs_arith (f_params f) args) then mkout tr (Some EDispatch) else
       match new_plist E (f_params f) args with
       | None => mkout tr (Some ECrash)
       | Some args' =>
